@@ -305,7 +305,7 @@ def main_c13(tier, seed):
     orig_create = KNNSubgraph.create_arcs
     for idx in range(nfit):
         which = "unsup" if idx % 2 == 0 else "knn"
-        it = gen_kinst(rng, nmin=4, nmax=10, labelled=True) if which == "unsup" else gen_split_inst(rng, nmax=11)
+        it = gen_kinst(rng, nmin=4, nmax=10, labelled=True, **(dict(kinds=("asym",)) if idx % 8 == 2 else {})) if which == "unsup" else gen_split_inst(rng, nmax=11)
         n = it.n
         d = it.desc(); d["flavour"] = which + "_fit"
         calls = []
@@ -356,6 +356,15 @@ def main_c13(tier, seed):
                 msg = "KNN-supervised fit: some training sample does not carry its own label"
         if not msg and calls and calls[-1][0] != k:
             msg = "the final arcs were created with k=%d but best_k=%d" % (calls[-1][0], k)
+        if not msg and which == "unsup":
+            # the graph the forest lives on: every sample's k arcs (behind its plateau insertions) go to its k nearest samples
+            # by the distance FROM that sample (directed dissimilarities included)
+            for p_ in range(nt):
+                arcs = st["adj"][p_][st["nplat"][p_]: st["nplat"][p_] + k]
+                ds = sorted(Dt[p_][int(j)] for j in arcs)
+                want = sorted(Dt[p_][j] for j in range(nt) if j != p_)[:min(k, nt - 1)]
+                if ds != want:
+                    msg = "the %d arcs of sample %d have distances %r, its %d nearest samples are at %r" % (k, p_, ds, k, want); break
         if msg:
             nviol += 1
             if nviol <= 3:
